@@ -90,13 +90,21 @@ def lanczos_tridiag(
 
     # Copy over alpha_0 and beta_0 to t_mat
     t_mat[0, 0].copy_(alpha_0)
-    t_mat[0, 1].copy_(beta_0)
-    t_mat[1, 0].copy_(beta_0)
 
-    # Compute the first new vector
-    q_mat[1].copy_(r_vec.div_(beta_0.unsqueeze(dim_dimension)))
+    # A budget of one iteration, or a start vector that already spans an invariant subspace
+    # (beta_0 vanishes for every vector), ends the decomposition here: Q = q_0, T = [alpha_0]
+    if num_iter > 1 and torch.sum(beta_0.abs() > 1e-6) == 0:
+        num_iter = 1
+
+    if num_iter > 1:
+        t_mat[0, 1].copy_(beta_0)
+        t_mat[1, 0].copy_(beta_0)
+
+        # Compute the first new vector
+        q_mat[1].copy_(r_vec.div_(beta_0.unsqueeze(dim_dimension)))
 
     # Now we start the iteration
+    k = 0
     for k in range(1, num_iter):
         # Get previous values
         q_prev_vec = q_mat[k - 1]
